@@ -123,6 +123,13 @@ std::vector<Sector> decode_mfm_track(const BitStream& bits, bool verbose)
   enum class MfmDecodeState { LookingForSectorHeader, LookingForRecord };
   Sector sec;
   int sec_size;
+  // A floppy disc controller only accepts a data address mark which
+  // turns up within 43 byte times of the end of the sector ID (gap 2
+  // is 22 bytes and the sync field 12 bytes).  A mark further away
+  // than that belongs to some other sector whose ID we could not
+  // read.  The limit is in bits and allows for the three A1 bytes.
+  constexpr size_t max_id_to_data_sync_bits = (43u + 4u) * 16u;
+  size_t id_end = 0;
   enum MfmDecodeState state = MfmDecodeState::LookingForSectorHeader;
   while (bits_avail)
     {
@@ -135,6 +142,18 @@ std::vector<Sector> decode_mfm_track(const BitStream& bits, bool verbose)
       if (!found)
 	break;
       thisbit = found->first + 1;
+      if (state == MfmDecodeState::LookingForRecord
+	  && thisbit - id_end > max_id_to_data_sync_bits)
+	{
+	  // Too far from the sector ID we read to be its record; it
+	  // could be another sector ID though.
+	  if (verbose)
+	    {
+	      std::cerr << "The next address mark is too far from the ID of sector "
+			<< sec.address << " to be its record\n";
+	    }
+	  state = MfmDecodeState::LookingForSectorHeader;
+	}
       // The next byte is an address mark; either the ID address mark
       // (which appears after gap3) or the data address mark (which
       // appears after gap2).
@@ -171,6 +190,7 @@ std::vector<Sector> decode_mfm_track(const BitStream& bits, bool verbose)
 		    if (decode_sector_address_and_size(header.data(), &sec.address, &sec_size,
 						       error))
 		      {
+			id_end = thisbit;
 			state = MfmDecodeState::LookingForRecord;
 			continue;
 		      }
